@@ -217,3 +217,17 @@ cdef class PriorityQueue:
 
 	cdef bool c_is_empty(self):
 		return self.heap.size() == 0
+
+	def _verif_state(self):
+		'''Verification hook: complete internal state as (heap, positions). Only available
+		when the environment variable WHATSHAP_VERIF_TRACE is set.'''
+		import os
+		if not os.environ.get('WHATSHAP_VERIF_TRACE'):
+			raise RuntimeError('_verif_state is only available when WHATSHAP_VERIF_TRACE is set')
+		heap = []
+		for i in range(self.heap.size()):
+			heap.append((tuple(self.heap[i].first[0]), self.heap[i].second))
+		positions = {}
+		for entry in self.positions:
+			positions[entry.first] = entry.second
+		return heap, positions
